@@ -44,6 +44,22 @@ class VisitorModel:
         if VISITOR_CLASS not in self.mod.classes:
             raise AnalysisError("M3", VISITOR_CLASS, "parse-tree visitor class not found in parser.py")
         self.cls = self.mod.classes[VISITOR_CLASS]
+        # mix-in base classes defined in the project contribute their methods (method resolution order)
+        import copy as _copy
+
+        merged = _copy.copy(self.cls)
+        merged.methods = dict(self.cls.methods)
+        if hasattr(self.cls, "classmethods"):
+            merged.classmethods = dict(self.cls.classmethods)
+        try:
+            for base in py.mro(VISITOR_CLASS)[1:]:
+                for k_, v_ in base.methods.items():
+                    merged.methods.setdefault(k_, v_)
+                for k_, v_ in getattr(base, "classmethods", {}).items():
+                    merged.classmethods.setdefault(k_, v_)
+        except Exception:
+            pass
+        self.cls = merged
         self.methods: Dict[str, VisitMethod] = {}
         for name, fn in self.cls.methods.items():
             if not name.startswith("visit_") and name != "generic_visit":
